@@ -20,6 +20,7 @@ func init() {
 		Assumptions: []string{"generated getters GetX() return field X"},
 		Run:         runC14,
 		Controls: []Control{
+			{Name: "positions-forwarder-stops-on-unchanged", File: "pkg/trait/openclosepb/model.go", Old: "\t\t\tif eq(last, positions) {\n\t\t\t\tcontinue\n\t\t\t}\n", New: "\t\t\tif eq(last, positions) {\n\t\t\t\treturn\n\t\t\t}\n", Expect: "R14.17"},
 			{Name: "aggregate-pull-forwards-updates-only", File: "pkg/trait/openclosepb/model.go", Old: "\t\tfor change := range m.positions.Pull(ctx) {", New: "\t\tfor change := range m.positions.Pull(ctx, resource.WithUpdatesOnly(readRequest.UpdatesOnly)) {", Expect: "R14.12"},
 			{Name: "revert-F37-mask-on-items", File: "pkg/trait/openclosepb/model.go", Old: "\tallPositions := m.positions.List() // already sorted by ID aka Direction ordinal", New: "\tallPositions := m.positions.List(opts...) // already sorted by ID aka Direction ordinal", Expect: "R14.11"},
 			{Name: "revert-F38-gate-waits-for-seed", File: "pkg/trait/openclosepb/model.go", Old: "\t\t\tif !change.SeedValue {\n\t\t\t\t// updates only follow a complete seed: an empty collection has no seed events at all\n\t\t\t\tseenAll = true\n\t\t\t}\n", New: "", Expect: "R14.12"},
@@ -197,6 +198,13 @@ func fieldDecidesBranch(c *an.Ctx, fn *ssa.Function, req ssa.Value, name string,
 }
 
 func runC14(c *an.Ctx) {
+	r1417(c, "R14.17")
+	c.Min("R14.17", 10)
+	r046(c, "R14.15")
+	r165held(c, "R14.15") // open streams under an equivalence: every delivery moves the reference (shared with R16.5)
+	c.Min("R14.15", 2)
+	r062filters(c, "R14.16") // a masked stream carries the projection, not the stored value (shared with R06.2)
+	c.Min("R14.16", 2)
 	res := an.ModulePath + "/pkg/resource."
 	masks := an.ModulePath + "/pkg/masks."
 	hs := traitHandlers(c)
@@ -1114,4 +1122,87 @@ func valueOf(in ssa.Instruction) ssa.Value {
 		return v
 	}
 	return nil
+}
+
+// r1417: a model's Pull forwarder lives as long as its subscription. In the goroutines of the trait models that range
+// over a resource subscription and forward to the model's own channel, the only ways out of the loop are the end of
+// the input (the subscription's context ended) and a select case on a context's Done. A `return` anywhere else - on a
+// value that did not change, on a filtered event - ends the stream for the client (a clean EOF) although nobody closed
+// it, and every later write is never announced.
+func r1417(c *an.Ctx, rule string) {
+	n := 0
+	for _, fn := range c.Prog.FuncsIn("pkg/trait") {
+		if c.Prog.IsGenerated(fn.Pos()) || fn.Parent() == nil {
+			continue
+		}
+		file := c.Prog.RelFile(fn.Pos())
+		if !strings.HasSuffix(file, "/model.go") {
+			continue
+		}
+		for _, rl := range an.RecvLoops(fn) {
+			b, recv := rl.Header, rl.Recv
+			// producer: a call with a context argument whose result is the ranged channel
+			bound := false
+			for _, s := range an.Sources(recv.X) {
+				if call, ok := s.(*ssa.Call); ok {
+					for _, a := range call.Call.Args {
+						if an.NamedTypeName(a.Type()) == "context.Context" {
+							bound = true
+						}
+					}
+				}
+			}
+			if !bound || len(b.Succs) == 0 {
+				continue
+			}
+			n++
+			c.SawFunc(an.FuncName(fn))
+			body := b.Succs[0]
+			var early *ssa.Return
+			for _, r := range an.Returns(fn) {
+				if r.Block() == fn.Recover {
+					continue
+				}
+				t, _ := an.PathQuery{Target: func(in ssa.Instruction) bool { return in == ssa.Instruction(r) },
+					Avoid: func(in ssa.Instruction) bool { return in == ssa.Instruction(recv) }}.FromBlock(body)
+				if t == nil {
+					continue
+				}
+				viaDone := false
+				for _, e := range an.GuardingEdges(r) {
+					bo, ok := e.If.Cond.(*ssa.BinOp)
+					if !ok || !e.Branch {
+						continue
+					}
+					ex, ok := bo.X.(*ssa.Extract)
+					if !ok || ex.Index != 0 {
+						continue
+					}
+					sel, ok := ex.Tuple.(*ssa.Select)
+					if !ok {
+						continue
+					}
+					idx, isC := an.ConstInt(bo.Y)
+					if !isC || int(idx) >= len(sel.States) {
+						continue
+					}
+					if st := sel.States[idx]; st.Dir == types.RecvOnly {
+						if _, isDone := an.CtxDone(st.Chan); isDone {
+							viaDone = true
+						}
+					}
+				}
+				if !viaDone {
+					early = r
+				}
+			}
+			pos := recv.Pos()
+			if early != nil {
+				pos = early.Pos()
+			}
+			c.Check(early == nil, rule, an.FuncName(fn)+"|the forwarder only stops with its subscription", pos, "the loop ends when the input closes or a context is done",
+				"the forwarding loop returns on a path that is neither the end of its input nor a context's Done: the model's channel is closed while the subscription is alive, the server handler returns nil, and the client sees its Pull stream end (EOF) although nobody closed it; later writes are never announced")
+		}
+	}
+	c.Count("model_forwarders", n)
 }
